@@ -137,6 +137,15 @@ def explore(task):
                         bad.append(('wrong', kk, list(h2),
                                     f"component #{worst[1]} off by "
                                     f"{worst[0]:.3g}"))
+                    # exact input, exact output: no floating-point number
+                    # may appear in a symbolic result (the metrics of the
+                    # menu contain none)
+                    flat = symref.flatten(core.data[kk]) if not isinstance(
+                        core.data[kk], sp.Expr) else [core.data[kk]]
+                    if any(sp.sympify(e).atoms(sp.Float) for e in flat):
+                        bad.append(('inexact', kk, list(h2),
+                                    'floating-point coefficients in the '
+                                    'symbolic result'))
                     fp = tuple(round(v, 8) for a in got for v in a)
                     if kk in seen_val and seen_val[kk][0] != fp:
                         bad.append(('order-dependent', kk, list(h2),
